@@ -15,7 +15,14 @@ type ValSpec struct {
 
 // Value classes.
 var ValueClasses = []string{"const", "periodic", "text", "random", "headrand", "tailrand", "mix",
-	"wav", "mp3", "wavlike", "decimal", "midpair", "crlf"}
+	"wav", "mp3", "wavlike", "decimal", "midpair", "crlf", "stride"}
+
+// StrideOf returns the slot length of the "stride" class for a salt: distances around the widths of the match
+// offset fields of the QuickLZ levels (2^16, 2^17) and a few others.
+func StrideOf(salt uint32) int {
+	strides := []int{131072, 131071, 131073, 131070, 131074, 65536, 65535, 65537, 262144, 4096, 1000, 131072, 65536}
+	return strides[int(salt)%len(strides)]
+}
 
 type xorshift struct{ s uint64 }
 
@@ -134,6 +141,23 @@ func (v ValSpec) Expand() []byte {
 		fillText(b, fix)
 		if n > 1024 {
 			x.fill(b[512 : n-512])
+		}
+	case "stride":
+		// slots of StrideOf(salt) bytes, each starting with the same short pseudo-random header followed by a run of one
+		// byte: the only match for a header is the previous slot's, exactly one stride back
+		st := StrideOf(v.Salt)
+		hdr := make([]byte, 3+int(v.Salt/13)%62)
+		x.fill(hdr)
+		fillc := byte(' ')
+		if v.Salt%2 == 1 {
+			fillc = 0
+		}
+		for i := range b {
+			if i%st < len(hdr) {
+				b[i] = hdr[i%st]
+			} else {
+				b[i] = fillc
+			}
 		}
 	case "crlf":
 		pat := []byte("\r\nEND\r\n\x00VALUE x 0 1\r\nSTORED\r\n")
